@@ -483,6 +483,23 @@ theorem integerIndexed_length_fixed {V} [DecidableEq V] (undef : V) (c : V → V
     rw [hs] at this
     exact this
 
+/-- The history-level essential invariants hold along histories that involve typed arrays: every exotic step acts on the
+ordinary part of the heap as zero or one ordinary steps, hence for any well-formed history a non-configurable ordinary
+property keeps its frozen shape, a non-extensible object gains no ordinary key and keeps its prototype, and the key lists
+stay duplicate-free. -/
+theorem integerIndexed_hist_invariants {V} [DecidableEq V] (undef : V) (c : V → V) (xh : XHeap V) (ops : List (XOp V))
+    (hw : ∀ op ∈ ops, op.wf = true) (o : Nat) :
+    (∀ k p, lookup (xh.h o).props k = some p → p.configurable = false →
+        ∃ p', lookup ((xRun undef c xh ops).h o).props k = some p' ∧ frozenStep p p' = true)
+    ∧ ((xh.h o).ext = false →
+        ((xRun undef c xh ops).h o).ext = false ∧ ((xRun undef c xh ops).h o).proto = (xh.h o).proto ∧
+        ∀ k, (lookup ((xRun undef c xh ops).h o).props k).isSome = true → (lookup (xh.h o).props k).isSome = true)
+    ∧ (KeysNodup xh.h → KeysNodup (xRun undef c xh ops).h) := by
+  obtain ⟨l, hl, e⟩ := xRun_trace undef c ops xh hw
+  rw [e]
+  exact ⟨fun k p h1 h2 => run_frozen undef l xh.h hl o k p h1 h2, fun he => run_nonext undef l xh.h o he,
+    fun hn => run_keysNodup undef l xh.h hn⟩
+
 /-! ### exotic delta: the lazily created `prototype` property of ordinary functions (func.go:173-250) -/
 
 /-- Every own-property lookup, define and delete on a function whose `prototype` slot is not yet materialised gives the
